@@ -493,12 +493,14 @@ pub fn get_best_move_until_stop(
         println!("info depth {}", depth);
         println!("info score cp {}", best_score);
         println!("info nodes {}", table.len());
-        print!("info pv ");
+        // Built first and printed as one line, so that an answer of the stdin loop cannot land inside it
+        let mut pv_line = String::from("info pv ");
         for _ in 0..depth {
             if let Some(entry) = table.get(&hash) {
                 if let Some(pv) = entry.pv {
                     game_clone.push(pv);
-                    print!("{} ", pv.uci_notation());
+                    pv_line.push_str(&pv.uci_notation());
+                    pv_line.push(' ');
                     hash = game_clone.hash();
                 } else {
                     break;
@@ -507,7 +509,7 @@ pub fn get_best_move_until_stop(
                 break;
             }
         }
-        println!();
+        println!("{}", pv_line);
 
         // If mate can be forced, or there is only a single move available, stop searching
         if depth == limit
